@@ -6,7 +6,10 @@
      forallb op_wf ops   the environment's data are well-formed (non-negative amounts, distinct
                          minors within one annotation);
      env_ok_from         no environment event (inventory refresh, device deletion, foreign pod,
-                         annotation rewrite) itself leaves a device over-committed. *)
+                         annotation rewrite) itself leaves a device over-committed, and on a node
+                         with a GPU partition table every whole-GPU request fits the total of
+                         every GPU (sched_ok; the partition path hands out unused GPUs without
+                         comparing amounts). *)
 From Coq Require Import List ZArith Bool Arith.
 From Verif Require Import C07.Model C07.Spec C07.Proofs_Res C07.Proofs_Ledger C07.Proofs_View
   C07.Proofs_Alloc C07.Proofs_Allocate C07.Proofs_State C07.Proofs_Inv C07.Proofs_Preempt
@@ -55,7 +58,8 @@ Print Assumptions c07_refuted_shrink.
    of the Device CR, each with the request fitting its free amount in every exposed resource *)
 Theorem c07_alloc_sound : forall ops rq da t,
   forallb op_wf ops = true -> (t < 3)%nat ->
-  allocate (ledgers (exec ops)) (infos (exec ops)) rq = ADone da ->
+  sched_ok (nkind (exec ops)) (ledgers (exec ops)) rq = true ->
+  allocate (nkind (exec ops)) (ledgers (exec ops)) (infos (exec ops)) rq = ADone da ->
   alloc_sound_t (ledgers (exec ops)) (infos (exec ops)) t rq (allocs_of da t) = true.
 Proof. exact alloc_sound_all. Qed.
 Print Assumptions c07_alloc_sound.
@@ -73,20 +77,38 @@ Print Assumptions c07_alloc_sound_meaning.
 (* a refusal: invalid request, no device of a requested type, or fewer eligible devices than desired *)
 Theorem c07_alloc_complete : forall ops rq code,
   forallb op_wf ops = true ->
-  allocate (ledgers (exec ops)) (infos (exec ops)) rq = AFail code ->
+  allocate (nkind (exec ops)) (ledgers (exec ops)) (infos (exec ops)) rq = AFail code ->
   (code = c_unresolvable /\
    (existsb (fun t => is_invalid (treq_of rq t)) type_ids
-    || existsb (fun t => no_device_t (ledgers (exec ops)) t rq) type_ids) = true)
+    || existsb (fun t => no_device_t (ledgers (exec ops)) t rq) type_ids
+    || part_unsupported (nkind (exec ops)) (treq_of rq 0)) = true)
   \/ (code = c_unsched /\
-      existsb (fun t => alloc_short_t (ledgers (exec ops)) (infos (exec ops)) t rq) type_ids = true).
+      existsb (fun t => alloc_short_t (nkind (exec ops)) (ledgers (exec ops)) (infos (exec ops)) t rq) type_ids = true).
 Proof. exact alloc_complete_all. Qed.
 Print Assumptions c07_alloc_complete.
-Theorem c07_alloc_short_meaning : forall ls infos t rq,
-  alloc_short_t ls infos t rq = true ->
+Theorem c07_alloc_short_meaning : forall kind ls infos t rq,
+  alloc_short_t kind ls infos t rq = true ->
   exists per count sh, treq_of rq t = TReq per count sh /\
-    (eligible_count (ledger_of ls t) (minors_of infos t) per < desired_count count)%nat.
+    ((eligible_count (ledger_of ls t) (minors_of infos t) per < desired_count count)%nat \/
+     (t = 0%nat /\ part_short kind (ledger_of ls t) (minors_of infos t) count sh = true)).
 Proof. exact alloc_short_t_spec. Qed.
 Print Assumptions c07_alloc_short_meaning.
+(* GPU partition tables (node labelled with a Hopper model; policy Honor): a refusal for lack of
+   partitions means no partition of the requested size consists of listed, healthy, entirely
+   free GPUs; a grant of a partition is covered by c07_alloc_sound under [sched_ok] (the
+   whole-GPU request fits the total of every GPU, which the partition path does not check) *)
+Theorem c07_part_short_meaning : forall kind l minors count sh,
+  part_short kind l minors count sh = true ->
+  honor_part kind = true /\ sh = false /\
+  forall ps p, hopper_table (desired_count count) = Some ps -> In p ps ->
+    exists m, In m p /\ part_free_minor l minors m = false.
+Proof. exact part_short_spec. Qed.
+Print Assumptions c07_part_short_meaning.
+Example c07_part_demo :
+  forallb op_wf part_ops = true /\
+  map (fun ob => (o_code (fst ob), map fst (allocs_of (o_allocs (fst ob)) 0))) (run part_ops)
+  = [(0, []); (0, []); (0, [2%nat; 3%nat]); (2, [])].
+Proof. exact part_demo. Qed.
 
 (* preemption dry-run (Filter after RemovePod of the victims): the free map it allocates from is
    total - (used - the victims' holdings), both differences clamped at zero ... *)
@@ -102,7 +124,8 @@ Print Assumptions c07_preempt_free.
    only if fewer than desired eligible devices exist on it *)
 Theorem c07_preempt_sound : forall ops rq t per count sh victims al,
   forallb op_wf ops = true -> treq_of rq t = TReq per count sh ->
-  alloc_type_on (ledgers (exec ops)) (infos (exec ops)) t per count sh victims = Some al ->
+  sched_ok (nkind (exec ops)) (ledgers (exec ops)) rq = true ->
+  alloc_type_on (nkind (exec ops)) (ledgers (exec ops)) (infos (exec ops)) t per count sh victims = Some al ->
   (desired_count count <=
    maybe_count (preempt_ledger (ledger_of (ledgers (exec ops)) t) victims)
                (minors_of (infos (exec ops)) t) per)%nat.
@@ -110,9 +133,12 @@ Proof. exact preempt_sound_all. Qed.
 Print Assumptions c07_preempt_sound.
 Theorem c07_preempt_complete : forall ops rq t per count sh victims,
   forallb op_wf ops = true -> treq_of rq t = TReq per count sh ->
-  alloc_type_on (ledgers (exec ops)) (infos (exec ops)) t per count sh victims = None ->
+  alloc_type_on (nkind (exec ops)) (ledgers (exec ops)) (infos (exec ops)) t per count sh victims = None ->
   (eligible_count (preempt_ledger (ledger_of (ledgers (exec ops)) t) victims)
-                  (minors_of (infos (exec ops)) t) per < desired_count count)%nat.
+                  (minors_of (infos (exec ops)) t) per < desired_count count)%nat \/
+  (t = 0%nat /\
+   part_short (nkind (exec ops)) (preempt_ledger (ledger_of (ledgers (exec ops)) t) victims)
+              (minors_of (infos (exec ops)) t) count sh = true).
 Proof. exact preempt_complete_all. Qed.
 Print Assumptions c07_preempt_complete.
 
@@ -127,13 +153,13 @@ Print Assumptions c07_dup_add_noop.
 Theorem c07_check_sound : forall k o out ls t,
   check_step k o (out, ls) = 0 -> k_wf k && op_wf o = true -> (t < 3)%nat ->
   free_eq (ledger_of ls t) /\ used_eq_sum (ledger_of ls t) /\
-  (k_env k && (negb (is_env_op o) || inv_okb ls) = true -> no_overcommit (ledger_of ls t)).
+  (k_env k && (negb (is_env_op o) || inv_okb ls) && step_ok k o = true -> no_overcommit (ledger_of ls t)).
 Proof. exact check_step_sound. Qed.
 Print Assumptions c07_check_sound.
 
 (* the allocator ignores request keys a device does not expose (limit of the exposed-key reading) *)
 Theorem c07_unexposed_key_granted :
-  allocate (ledgers (exec unexposed_ops)) (infos (exec unexposed_ops)) (req_koord 50)
+  allocate 0 (ledgers (exec unexposed_ops)) (infos (exec unexposed_ops)) (req_koord 50)
   = ADone [[(0%nat, mkRes (Some 50) (Some 50) (Some 8000))]; []; []].
 Proof. exact unexposed_granted. Qed.
 Print Assumptions c07_unexposed_key_granted.
